@@ -513,7 +513,25 @@ func VxC14EnsureExists() {
 	}
 	db.Replica = NewReplicaWithClient(db, c)
 	vxIntegrityPaths = nil
+	// first deployment: nothing to restore, and the application - started together
+	// with litestream - creates its database while litestream is still asking the
+	// replica (one round trip at least lies between the existence test and the answer)
+	createdMeanwhile := false
+	if !exists && len(c.files) == 0 && vx.Fault("appCreatesDatabaseMeanwhile") {
+		c.onList = func() {
+			createdMeanwhile = true
+			vx.FSWriteFile(path, dbBytes)
+			vx.FSWriteFile(path+"-wal", walBytes)
+			vx.FSWriteFile(path+"-shm", []byte("wal-index"))
+		}
+	}
 	err := db.EnsureExists(context.Background())
+	if createdMeanwhile {
+		same := vx.FSExists(path) && string(vx.FSReadFile(path)) == string(dbBytes) && vx.FSExists(path+"-wal") && vx.FSExists(path+"-shm") &&
+			string(vx.FSReadFile(path+"-wal")) == string(walBytes)
+		vx.Assert("database-created-meanwhile-is-left-alone", same)
+		return
+	}
 	if !exists {
 		vx.ObserveBool("restored", err == nil && vx.FSExists(path))
 		return
@@ -529,4 +547,41 @@ func VxC14EnsureExists() {
 		}
 	}
 	vx.Assert("no-integrity-check-on-the-live-source", !touched)
+}
+
+// VxC14ResetLocal: a reset of the local state (`litestream reset`, or the replica
+// monitor's auto-recovery) with the meta path wherever a configuration may put
+// it - the default hidden directory, the database's own directory, or an ancestor
+// of it: the database, its -wal and -shm and whatever else the application keeps
+// beside them are still there, byte for byte; only the ltx tree is gone.
+func VxC14ResetLocal() {
+	base := vx.TempDir()
+	dir := base + "/data"
+	path := dir + "/app.db"
+	dbBytes := []byte("SQLite format 3\x00 live database")
+	walBytes := append(make([]byte, WALHeaderSize), []byte("frames not checkpointed yet")...)
+	vx.FSWriteFile(path, dbBytes)
+	vx.FSWriteFile(path+"-wal", walBytes)
+	vx.FSWriteFile(path+"-shm", []byte("wal-index"))
+	vx.FSWriteFile(dir+"/other.db", []byte("another application file"))
+	db := NewDB(path)
+	switch vx.Choose("metaPath", 0, 2) {
+	case 1:
+		db.SetMetaPath(dir)
+	case 2:
+		db.SetMetaPath(base)
+	}
+	vx.FSMkdirAll(db.LTXLevelDir(0))
+	vx.FSWriteFile(db.LTXPath(0, 1, 1), []byte("ltx"))
+	vx.FSWriteFile(db.LTXPath(0, 2, 2)+".tmp", []byte("half"))
+	c := &vxStoreClient{}
+	if vx.Fault("withReplica") {
+		db.Replica = NewReplicaWithClient(db, c)
+	}
+	err := db.ResetLocalState(context.Background())
+	vx.Assert("reset-succeeds", err == nil)
+	same := string(vx.FSReadFile(path)) == string(dbBytes) && vx.FSExists(path+"-wal") && vx.FSExists(path+"-shm") &&
+		string(vx.FSReadFile(path+"-wal")) == string(walBytes) && vx.FSExists(dir+"/other.db")
+	vx.Assert("reset-leaves-the-database-and-its-neighbours-alone", same)
+	vx.Assert("reset-removes-the-local-ltx-files", !vx.FSExists(db.LTXPath(0, 1, 1)))
 }
